@@ -9,8 +9,14 @@ def run(ctx):
     units = False
     try:
         from cfront import helpers as H
-        H.run(ctx, tabs)
+        H.run(ctx, tabs, names=["ShroudLenTrim", "ShroudStrCopy", "ShroudStrBlankFill", "ShroudStrAlloc"])
         units = True
+        ctx.trusted += [
+            "mini-C front end (cfront/): parser for the helper subset, symbolic execution with (block, offset) pointers, "
+            "int range CHECKED on every arithmetic result, size_t 64 bit (LP64), libc contracts for memcpy/memset/strlen/"
+            "malloc/free, malloc assumed to succeed; z3 with explicit instantiation of quantified hypotheses",
+            "the verified text is the c_source / cxx_source string of whelpers.CHelpers as built by the real module",
+        ]
     except ImportError:
         pass
     ctx.extra["exhaustive"] = True
